@@ -4,11 +4,11 @@ use crate::support::*;
 use educe::Educe;
 use core::cmp::Ordering;
 #[derive(Educe)]
-#[educe(PartialEq, Ord, PartialOrd, Eq)]
-pub enum T { Some, V1(#[educe(Ord(method = m_cmp, rank = "-2"))] A<0>) }
+#[educe(Eq, PartialOrd, Ord, PartialEq)]
+pub struct T;
 
-pub fn values() -> Vec<T> { vec![T::Some, T::V1(A(0)), T::V1(A(1)), T::V1(A(7))] }
-pub fn show(x: &T) -> String { #[allow(unused_variables)] match x { T::Some => format!("Some()"), T::V1(p0) => format!("V1({})", sv(p0)) } }
-pub fn o_disc(x: &T) -> i128 { match x { T::Some => 0, T::V1(_) => 1 } }
-pub fn o_cmp(a: &T, b: &T) -> Ordering { match (a, b) { (T::Some, T::Some) => {  Ordering::Equal }, (T::V1(a0), T::V1(b0)) => { let c = m_cmp(a0, b0); if c != Ordering::Equal { return c; } Ordering::Equal }, _ => o_disc(a).cmp(&o_disc(b)) } }
+pub fn values() -> Vec<T> { vec![T] }
+pub fn show(x: &T) -> String { #[allow(unused_variables)] match x { T => format!("T()") } }
+pub fn o_disc(x: &T) -> i128 { match x { T => 0 } }
+pub fn o_cmp(a: &T, b: &T) -> Ordering { match (a, b) { (T, T) => {  Ordering::Equal } } }
 pub fn run(out: &mut Out) { let vs = values(); for (i, a) in vs.iter().enumerate() { for (j, b) in vs.iter().enumerate() { let e = o_cmp(a, b); let g = ::core::cmp::Ord::cmp(a, b); out.check(g == e, "ord_21", "cmp", || format!("cmp({}, {}) = {:?} expected {:?}", show(a), show(b), g, e)); let g2 = ::core::cmp::PartialOrd::partial_cmp(a, b); out.check(g2 == Some(e), "ord_21", "partial_is_some_cmp", || format!("partial_cmp({}, {}) = {:?} expected Some({:?})", show(a), show(b), g2, e)); } } }
